@@ -228,6 +228,11 @@ def st_field_case(draw):
     name = {"series": draw(st.sampled_from([None, "s"])), "column": "a", "index": draw(st.sampled_from([None, "ix"]))}[kind]
     size = draw(st.sampled_from(SIZES))
     f = draw(st_field(clean, name, role=kind, size=size))
+    if kind in ("series", "column") and size and sp.holds_null(f["dtype"]) and draw(st.integers(0, 3)) == 0:
+        # a whole-series custom check without a strategy whose outcome depends on the nulls (at least k non-null values)
+        # on a nullable field: the emitted series, nulls included, has to satisfy it
+        f["nullable"], f["unique"] = True, False
+        f["checks"] = list(f["checks"]) + [{"c": "vec_count", "k": max(1, size - draw(st.integers(0, 1)))}]
     case = {"kind": kind, "clean": clean, "field": f, "size": size, "seed": draw(st.integers(0, 2 ** 16))}
     if sp.cls_of(f["dtype"]) in ("dt", "td") and draw(st.integers(0, 2)) == 0:
         case["tscale"] = "ns"
@@ -756,7 +761,7 @@ def _k_fresh(family, case, disc):
 PA_NAME = {"eq": "equal_to", "ne": "not_equal_to", "gt": "greater_than", "ge": "greater_than_or_equal_to",
            "lt": "less_than", "le": "less_than_or_equal_to", "in_range": "in_range", "isin": "isin", "notin": "notin",
            "str_matches": "str_matches", "str_contains": "str_contains", "str_startswith": "str_startswith",
-           "str_endswith": "str_endswith", "str_length": "str_length", "ew_gt": "c13_ew_gt", "vec_ge": "c13_vec_ge",
+           "str_endswith": "str_endswith", "str_length": "str_length", "ew_gt": "c13_ew_gt", "vec_ge": "c13_vec_ge", "vec_count": "c13_vec_count",
            "strat_le": "c13_strat_le", "ext_ge": "c13_ext_ge"}
 
 
@@ -991,7 +996,7 @@ def _k_in_range(family, case, disc):
         for seg in segs:
             # vectorised checks without strategy take no part in the element chain: the base strategy is the
             # first other check
-            seg = [x for x in seg if x[1]["c"] != "vec_ge"]
+            seg = [x for x in seg if x[1]["c"] not in ("vec_ge", "vec_count")]
             if seg and seg[0][1]["c"] == "in_range":
                 tag, c = seg[0]
                 values = fl["cases"] or _numeric_cells(snap, fl.get("label") if role == "column" else None)
@@ -1102,7 +1107,7 @@ FAMILIES = [
     Family("field", evaluate, strategy=st_field_case, n_quick=260, n_thorough=1500, shards_quick=6,
            shards_thorough=16, required_labels=["kind=series", "kind=column", "kind=index", "chain=2", "chain=3",
                                                 "nullable", "unique", "arg-none", "literal-metachar",
-                                                "check=ew_gt", "check=vec_ge", "check=strat_le", "check=ext_ge",
+                                                "check=ew_gt", "check=vec_ge", "check=vec_count", "check=strat_le", "check=ext_ge",
                                                 "model=sat", "model=unsat", "clean", "free"]),
     Family("frame", evaluate, strategy=st_frame_case, n_quick=100, n_thorough=800, shards_quick=6,
            shards_thorough=16, required_labels=["kind=dataframe", "kind=multiindex", "regex-column", "index=multi",
